@@ -1134,6 +1134,7 @@ class Facts:
         from . import combinators as _cmb
         self.expanded = _cmb.run(self.d['fns'])
         self.bool_selects = _cmb.bool_selects(self.d['fns'])
+        self.bool_diamonds = _cmb.bool_diamonds(self.d['fns'])
         self.anchors = _inl.load_anchors()
         il = _inl.Inliner(self.d['fns'], self.anchors)
         self.d['fns'] = il.run()
